@@ -3,13 +3,16 @@
    the latitude band [lat - r, lat + r] and the longitude band lon +- asin (sin r /
    cos lat) of RectFromCenter are proved to contain every location within angular
    distance r, and the angle the code computes (atan2 form, since the repair
-   7efb257) is proved to be that tangent longitude.  PARTIAL: the pole /
-   antimeridian widening, the world bounds, NaN-freedom and float64 rounding are
-   checked on every run by flags over generated centres and radii (48 probes per
-   case) and by certified interval samples. *)
+   7efb257) is proved to be that tangent longitude; and for the whole function
+   with its branches (SphereRectFull.rfc: clamping at a pole, full longitude
+   range when a pole is reached or the band crosses the antimeridian) the
+   rectangle is proved to contain the disc (longitudes modulo a turn) and to lie
+   within the world bounds.  PARTIAL: NaN-freedom, the resolution guard and
+   float64 rounding are checked on every run by flags over generated centres and
+   radii (48 probes per case) and by certified interval samples. *)
 From Coq Require Import Reals Lra.
 From Interval Require Import Tactic.
-From GJ Require Import Sphere SphereRect.
+From GJ Require Import Sphere SphereRect SphereRectFull.
 Open Scope R_scope.
 
 Theorem C14_latitude_band_covers_disc : forall lat0 lon0 lat lon r,
@@ -40,5 +43,23 @@ Proof. exact rect_lon_is_tangent_longitude. Qed.
 Example C14_hypotheses_hold_somewhere : lat_ok 45 /\ 0 <= 1 / 10 /\ Rabs (rad 45) + 1 / 10 < PI / 2.
 Proof. unfold lat_ok, rad. split; [lra|]. split; [lra|]. interval. Qed.
 
+(* MAIN: the rectangle of RectFromCenter (all branches: clamping at a pole, full longitude range when a pole is
+   reached or the band crosses the antimeridian) contains every location within the angular radius; longitudes
+   modulo a full turn.  rfc is geo.go's function after the resolution guard, over the reals, in radians. *)
+Theorem C14_rectangle_covers_disc : forall lat0 lon0 r lat lon,
+  lat_ok lat0 -> lon_ok lon0 -> lat_ok lat -> lon_ok lon -> 0 <= r <= PI ->
+  Rabs (rad lat0) + r <> PI / 2 ->
+  hav lat0 lon0 lat lon <= sin (r / 2) * sin (r / 2) ->
+  let '(mnLat, mnLon, mxLat, mxLon) := rfc lat0 lon0 r in
+  mnLat <= rad lat <= mxLat /\
+  exists j : Z, (-1 <= j <= 1)%Z /\ mnLon <= rad lon + 2 * PI * IZR j <= mxLon.
+Proof. exact rfc_covers. Qed.
+
+Theorem C14_rectangle_in_world_bounds : forall lat0 lon0 r,
+  let '(mnLat, mnLon, mxLat, mxLon) := rfc lat0 lon0 r in
+  - (PI / 2) <= mnLat /\ mxLat <= PI / 2 /\ - PI <= mnLon /\ mxLon <= PI.
+Proof. exact rfc_in_bounds. Qed.
+
 Print Assumptions C14_latitude_band_covers_disc.
 Print Assumptions C14_longitude_band_covers_disc.
+Print Assumptions C14_rectangle_covers_disc.
